@@ -250,3 +250,9 @@ def same_elems(xs, ys):
         if a != b:
             return False
     return True
+
+
+def same_status(a, b):
+    if set(a) != set(b):
+        return False
+    return all(a[k] is b[k] or (not isinstance(a[k], SBool) and not isinstance(b[k], SBool) and a[k] == b[k]) for k in a)
